@@ -92,6 +92,14 @@ Theorem C03_border_partitions_exact : forall cells nv,
 Proof. exact border_partitions. Qed.
 Print Assumptions C03_border_partitions_exact.
 
+(* FULL (conforming meshes). The boundary is closed: every pair of distinct vertices lies in an even number of border
+   faces (hence every edge of either extracted surface, whose faces are the border faces renumbered injectively, has an
+   even number of incident faces; that it is exactly two needs manifoldness of the boundary and is only tested). *)
+Theorem C03_boundary_closed : forall cells, tet_mesh cells -> conforming cells -> forall E, edge_ok E ->
+  Nat.even (length (filter (fun f => subsetb E (face cells f)) (t_bf (tables cells)))) = true.
+Proof. exact boundary_closed. Qed.
+Print Assumptions C03_boundary_closed.
+
 (* FULL, all real coordinates. The orientation test of _extract_surface_boundary (with geometry.det_3x3, both
    regenerated from the source) holds iff the right-hand normal of (A,B,C) points away from D. *)
 Theorem C03_orientation_test_iff_outward_R : forall a b c d : vecR, orient_test_R a b c d <-> outward_R a b c d.
